@@ -337,11 +337,15 @@ func (n *RegexNode) finalOptimize() *RegexNode {
 		// we've already outlined is problematic.
 		node := rootNode.Children[0] // skip implicit root capture node
 		atomicByAncestry := true     // the root is implicitly atomic because nothing comes after it (same for the implicit root capture)
+		underAtomic := false         // an explicit atomic group has been entered
 		for {
 			if verifGate("no-bumpalong") {
 				break
 			}
 			if node.T == NtAtomic {
+				// nothing below an atomic group is re-entered once the group has matched: a lazy loop in there
+				// is not expanded by what follows the group
+				underAtomic = true
 				node = node.Children[0]
 				continue
 			} else if node.T == NtConcatenate {
@@ -350,7 +354,7 @@ func (n *RegexNode) finalOptimize() *RegexNode {
 				continue
 			} else if node.N == math.MaxInt32 &&
 				((node.T == NtOneloop || node.T == NtOneloopatomic || node.T == NtNotoneloop || node.T == NtNotoneloopatomic || node.T == NtSetloop || node.T == NtSetloopatomic) ||
-					((node.T == NtOnelazy || node.T == NtNotonelazy || node.T == NtSetlazy) && !atomicByAncestry)) {
+					((node.T == NtOnelazy || node.T == NtNotonelazy || node.T == NtSetlazy) && !atomicByAncestry && !underAtomic)) {
 
 				if node.Parent != nil && node.Parent.T == NtConcatenate {
 					node.Parent.Children = slices.Insert(node.Parent.Children, 1, &RegexNode{T: NtUpdateBumpalong, Options: node.Options, Parent: node.Parent})
